@@ -62,6 +62,10 @@ OpVerdict(k, o) ==
                   \cup {<<k, "coarsest_interval", j>> : j \in {i \in 1..Len(o.events) :
                              o.events[i].ev = "RunCb" /\ "dlo" \in DOMAIN o.events[i] /\ o.events[i].scale = o.dns - 1 /\ o.events[i].side = "L"
                              /\ ~(CoarseBoundOk(o.umin, o.sf, o.dns - 1, o.events[i].dlo) /\ CoarseBoundOk(o.umax, o.sf, o.dns - 1, o.events[i].dhi))}}
+                  \cup {<<k, "whole_interval_at_border", j>> : j \in {i \in 1..Len(o.events) :
+                             o.events[i].ev = "RunCb" /\ "blo" \in DOMAIN o.events[i] /\ o.events[i].side = "L" /\ o.events[i].scale >= 0
+                             /\ ~(LevelBoundOk(o.umin, o.sf, o.dns, o.events[i].scale, o.events[i].blo)
+                                  /\ LevelBoundOk(o.umax, o.sf, o.dns, o.events[i].scale, o.events[i].bhi))}}
                   \cup (IF ~o.final_shape_ok THEN {<<k, "final_shape", 0>>} ELSE {})
                   \cup (IF ~o.inputs_ok THEN {<<k, "inputs_unmodified", 0>>} ELSE {})
              ELSE {}
